@@ -198,19 +198,24 @@ func init() {
 		for _, o := range orders {
 			for _, act := range []string{"always", "never"} {
 				for _, tail := range []string{"", " -S all", " -k k2"} {
-					if !c.Mine() {
-						continue
+					for _, add := range []string{"-a", "-A"} {
+						if !c.Mine() {
+							continue
+						}
+						var p []string
+						for _, x := range o {
+							p = append(p, parts[x])
+						}
+						line := add + " " + act + ",exit " + strings.Join(p, " ") + tail
+						detail := " order=" + strings.Join(o, ",")
+						if act == "never" {
+							detail += " never"
+						}
+						if add == "-A" {
+							detail += " prepend"
+						}
+						roundTrip(c, line, "watch-shaped", detail)
 					}
-					var p []string
-					for _, x := range o {
-						p = append(p, parts[x])
-					}
-					line := "-a " + act + ",exit " + strings.Join(p, " ") + tail
-					detail := " order=" + strings.Join(o, ",")
-					if act == "never" {
-						detail += " never"
-					}
-					roundTrip(c, line, "watch-shaped", detail)
 				}
 			}
 		}
